@@ -17,11 +17,13 @@ import (
 	auctiontypes "github.com/comdex-official/comdex/x/auction/types"
 	auctionsV2types "github.com/comdex-official/comdex/x/auctionsV2/types"
 	collectortypes "github.com/comdex-official/comdex/x/collector/types"
+	esm "github.com/comdex-official/comdex/x/esm"
 	esmtypes "github.com/comdex-official/comdex/x/esm/types"
 	liq1types "github.com/comdex-official/comdex/x/liquidation/types"
 	liq2types "github.com/comdex-official/comdex/x/liquidationsV2/types"
 	markettypes "github.com/comdex-official/comdex/x/market/types"
 	vaulttypes "github.com/comdex-official/comdex/x/vault/types"
+	abci "github.com/cometbft/cometbft/abci/types"
 	tmproto "github.com/cometbft/cometbft/proto/tendermint/types"
 	sdk "github.com/cosmos/cosmos-sdk/types"
 	authtypes "github.com/cosmos/cosmos-sdk/x/auth/types"
@@ -222,13 +224,25 @@ func c01NewWorld(t *testing.T, tr *Trace, rng *Rng) *c01World {
 		WithdrawalFee: sdk.ZeroDec(), ClosingFee: sdk.ZeroDec(), MinUsdValueLeft: 100000, BidFactor: c01Dec("0.1"),
 		LiquidationPenalty: c01Dec("0.1"), AuctionBonus: sdk.ZeroDec()})
 	// module accounts exist on a live chain (created at first use); create them before anybody can send coins there
-	for _, m := range []string{vaulttypes.ModuleName, collectortypes.ModuleName, auctionsV2types.ModuleName, auctiontypes.ModuleName} {
+	for _, m := range []string{vaulttypes.ModuleName, collectortypes.ModuleName, auctionsV2types.ModuleName, auctiontypes.ModuleName, esmtypes.ModuleName} {
 		w.app.AccountKeeper.GetModuleAccount(w.ctx, m)
 	}
 	// module accounts and users
 	w.acctNum[authtypes.NewModuleAddress(vaulttypes.ModuleName).String()] = 0
 	w.acctNum[authtypes.NewModuleAddress(collectortypes.ModuleName).String()] = 1
 	w.acctNum[authtypes.NewModuleAddress(auctionsV2types.ModuleName).String()] = 2
+	w.acctNum[authtypes.NewModuleAddress(esmtypes.ModuleName).String()] = 3
+	// emergency-shutdown parameters per app: redemption rates for a random subset of the assets (a stable-mint vault is
+	// redeemed only when both of its assets have a rate; ordinary vaults fall back to the price snapshot)
+	for _, a := range w.apps {
+		var rates []esmtypes.DebtAssetsRates
+		for _, id := range w.assetIDs {
+			if rng.Chance(75) {
+				rates = append(rates, esmtypes.DebtAssetsRates{AssetID: id, Rates: uint64(1+rng.Intn(3)) * 500000})
+			}
+		}
+		w.app.EsmKeeper.SetESMTriggerParams(w.ctx, esmtypes.ESMTriggerParams{AppId: a, TargetValue: sdk.NewCoin("uharbor", sdk.NewInt(1)), CoolOffPeriod: 3600, AssetsRates: rates})
+	}
 	nUsers := 2 + rng.Intn(4)
 	for i := 0; i < nUsers; i++ {
 		a := c01Addr(10 + i)
@@ -379,7 +393,7 @@ func (w *c01World) stateKind(kind string) {
 		}
 		ms = append(ms, fmt.Sprintf("%d:%s:%s:%s", m.ExtendedPairId, m.CollateralLockedAmount, m.TokenMintedAmount, strings.Join(ids, "|")))
 	}
-	accts := []sdk.AccAddress{authtypes.NewModuleAddress(vaulttypes.ModuleName), authtypes.NewModuleAddress(collectortypes.ModuleName), authtypes.NewModuleAddress(auctionsV2types.ModuleName)}
+	accts := []sdk.AccAddress{authtypes.NewModuleAddress(vaulttypes.ModuleName), authtypes.NewModuleAddress(collectortypes.ModuleName), authtypes.NewModuleAddress(auctionsV2types.ModuleName), authtypes.NewModuleAddress(esmtypes.ModuleName)}
 	accts = append(accts, w.users...)
 	for _, a := range accts {
 		for _, id := range w.assetIDs {
@@ -415,9 +429,17 @@ func (w *c01World) stateKind(kind string) {
 		fmt.Sscanf(lk[j], "%d:", &b)
 		return a < b
 	})
+	var rd []string
+	for _, a := range w.apps {
+		for _, x := range w.app.EsmKeeper.GetAllAssetToAmount(w.ctx, a) {
+			if !x.IsCollateral {
+				rd = append(rd, fmt.Sprintf("%d:%d:%s", a, x.AssetID, x.Amount))
+			}
+		}
+	}
 	w.tr.Line(kind, "v="+strings.Join(vs, ","), "s="+strings.Join(ss, ","), "lk="+strings.Join(lk, ","), "m="+strings.Join(ms, ","),
 		"len="+u(k.GetLengthOfVault(w.ctx)), "nv="+u(k.GetIDForVault(w.ctx)), "ns="+u(k.GetIDForStableVault(w.ctx)),
-		"bal="+strings.Join(bs, ","), "sup="+strings.Join(sup, ","))
+		"bal="+strings.Join(bs, ","), "sup="+strings.Join(sup, ","), "rd="+strings.Join(rd, ","))
 }
 
 type c01SeizedRec struct {
@@ -588,7 +610,9 @@ func (w *c01World) oneOp() {
 			w.tr.Count("op:breaker")
 		} else {
 			st, _ := w.app.EsmKeeper.GetESMStatus(w.ctx, a)
-			if st.Status {
+			if st.VaultRedemptionStatus || st.StableVaultRedemptionStatus || st.CollectorTransaction {
+				// redemption has started: the shutdown is final
+			} else if st.Status {
 				st.Status = false
 			} else {
 				st = esmtypes.ESMStatus{AppId: a, Status: true, StartTime: w.now, EndTime: w.now.Add(time.Duration(r.Intn(72)) * time.Hour), SnapshotStatus: r.Chance(70)}
@@ -601,6 +625,14 @@ func (w *c01World) oneOp() {
 			w.app.EsmKeeper.SetESMStatus(w.ctx, st)
 			w.tr.Count("op:esm")
 		}
+	}
+	if w.esmDue() && r.Chance(25) {
+		w.esmBlockOp()
+		return
+	}
+	if w.esmRegistered() && r.Chance(15) {
+		w.esmRedeemOp(user)
+		return
 	}
 	if len(w.openAuctions()) > 0 && r.Chance(20) {
 		w.bidOp(user)
@@ -736,43 +768,7 @@ func (w *c01World) oneOp() {
 			}
 			w.setPrice(vp.assetIn, np, true)
 		}
-		env := w.env(v.AppId, v.ExtendedPairVaultID, v.Id, true)
-		gen1 := r.Chance(45)
-		var okk bool
-		if gen1 {
-			okk = w.deliver(&liq1types.MsgLiquidateVaultRequest{From: user.String(), AppId: v.AppId, VaultId: v.Id})
-		} else {
-			okk = w.deliver(&liq2types.MsgLiquidateInternalKeeperRequest{From: user.String(), LiqType: 0, Id: v.Id})
-		}
-		_, still := w.app.VaultKeeper.GetVault(w.ctx, v.Id)
-		if restore != 0 {
-			w.setPrice(vp.assetIn, restore, true)
-		}
-		w.tr.Count(fmt.Sprintf("op:liquidate:gen1=%v:accepted=%v:seized=%v", gen1, okk, !still))
-		if okk && !still && os.Getenv("VERIF_DEBUG") != "" {
-			owed := v.AmountOut.Add(v.InterestAccumulated).Add(v.ClosingFeeAccumulated)
-			tw, _ := w.app.MarketKeeper.GetTwa(w.ctx, vp.assetIn)
-			fmt.Fprintf(os.Stderr, "SEIZED vault=%d in=%s owed=%s needAtRestoredPrice=%s price=%d restore=%d\n", v.Id, v.AmountIn, owed, w.crBoundaryIn(vp, owed), tw.Twa, restore)
-		}
-		if okk && !still {
-			debt := sdk.ZeroInt()
-			for _, l := range w.app.NewliqKeeper.GetLockedVaults(w.ctx) {
-				if l.OriginalVaultId == v.Id && l.InitiatorType == "vault" {
-					debt = l.DebtToken.Amount // principal + interest + closing fee at seizure
-				}
-			}
-			if gen1 {
-				for _, l := range w.app.LiquidationKeeper.GetLockedVaults(w.ctx) {
-					if l.OriginalVaultId == v.Id {
-						debt = l.AmountOut.Add(l.InterestAccumulated) // principal + (interest + closing fee) at seizure
-					}
-				}
-			}
-			c01Seized[v.Id] = c01SeizedRec{world: w, in: v.AmountIn, out: v.AmountOut, debt: debt, gen1: gen1}
-			emit("seize", u(v.Id), "-", "-", "-", "-", env, true)
-		} else {
-			w.state()
-		}
+		w.liquidate(user, v, r.Chance(45), restore)
 	default:
 		v, ok := pickVault()
 		if !ok {
@@ -1011,6 +1007,232 @@ func (w *c01World) bidOp1(user sdk.AccAddress) {
 	}
 }
 
+// liquidate asks one of the two liquidation generations to liquidate vault v (x/liquidation MsgLiquidateVault or
+// x/liquidationsV2 MsgLiquidateInternalKeeper); a seizure is one model step. `restore` != 0: the collateral price is put
+// back to that value afterwards (the liquidation happened in a price dip).
+func (w *c01World) liquidate(user sdk.AccAddress, v vaulttypes.Vault, gen1 bool, restore uint64) {
+	vp := w.productByID(v.ExtendedPairVaultID)
+	env := w.env(v.AppId, v.ExtendedPairVaultID, v.Id, true)
+	var okk bool
+	if gen1 {
+		okk = w.deliver(&liq1types.MsgLiquidateVaultRequest{From: user.String(), AppId: v.AppId, VaultId: v.Id})
+	} else {
+		okk = w.deliver(&liq2types.MsgLiquidateInternalKeeperRequest{From: user.String(), LiqType: 0, Id: v.Id})
+	}
+	_, still := w.app.VaultKeeper.GetVault(w.ctx, v.Id)
+	if restore != 0 {
+		w.setPrice(vp.assetIn, restore, true)
+	}
+	w.tr.Count(fmt.Sprintf("op:liquidate:gen1=%v:accepted=%v:seized=%v", gen1, okk, !still))
+	if okk && !still && os.Getenv("VERIF_DEBUG") != "" {
+		owed := v.AmountOut.Add(v.InterestAccumulated).Add(v.ClosingFeeAccumulated)
+		tw, _ := w.app.MarketKeeper.GetTwa(w.ctx, vp.assetIn)
+		fmt.Fprintf(os.Stderr, "SEIZED vault=%d in=%s owed=%s needAtRestoredPrice=%s price=%d restore=%d\n", v.Id, v.AmountIn, owed, w.crBoundaryIn(vp, owed), tw.Twa, restore)
+	}
+	if okk && !still {
+		debt := sdk.ZeroInt()
+		for _, l := range w.app.NewliqKeeper.GetLockedVaults(w.ctx) {
+			if l.OriginalVaultId == v.Id && l.InitiatorType == "vault" {
+				debt = l.DebtToken.Amount // principal + interest + closing fee at seizure
+			}
+		}
+		if gen1 {
+			for _, l := range w.app.LiquidationKeeper.GetLockedVaults(w.ctx) {
+				if l.OriginalVaultId == v.Id {
+					debt = l.AmountOut.Add(l.InterestAccumulated) // principal + (interest + closing fee) at seizure
+				}
+			}
+		}
+		c01Seized[v.Id] = c01SeizedRec{world: w, in: v.AmountIn, out: v.AmountOut, debt: debt, gen1: gen1}
+		w.tr.Count("op:seize:ok")
+		w.tr.Line("vault.msg", "seize", u(v.Id), "-", "-", "-", "-", env, "ok")
+		w.state()
+	} else {
+		w.state()
+	}
+}
+
+// ---- emergency shutdown (x/esm) ----------------------------------------------------------------------------------
+
+// esmDue: some app is shut down, its cool-off period is over and a redemption step is still outstanding
+func (w *c01World) esmDue() bool {
+	for _, a := range w.apps {
+		st, f := w.app.EsmKeeper.GetESMStatus(w.ctx, a)
+		if f && st.Status && w.ctx.BlockTime().After(st.EndTime) && !(st.VaultRedemptionStatus && st.StableVaultRedemptionStatus && st.CollectorTransaction && st.ShareCalculation) {
+			return true
+		}
+	}
+	return false
+}
+
+func (w *c01World) esmRegistered() bool {
+	for _, a := range w.apps {
+		for _, x := range w.app.EsmKeeper.GetAllAssetToAmount(w.ctx, a) {
+			if !x.IsCollateral && x.Amount.IsPositive() {
+				return true
+			}
+		}
+	}
+	return false
+}
+
+// esmBlockOp runs the REAL esm begin-blocker and reports what it did as one model step per redeemed vault / stable-mint
+// vault / collector burn, followed by one state line.
+func (w *c01World) esmBlockOp() {
+	type vrec struct {
+		app, prod uint64
+		env       string
+	}
+	before := map[uint64]vrec{}
+	for _, v := range w.app.VaultKeeper.GetVaults(w.ctx) {
+		before[v.Id] = vrec{v.AppId, v.ExtendedPairVaultID, w.env(v.AppId, v.ExtendedPairVaultID, v.Id, false)}
+	}
+	inList := func(prod, id uint64) bool {
+		for _, m := range w.app.VaultKeeper.GetAllAppExtendedPairVaultMapping(w.ctx) {
+			if m.ExtendedPairId == prod {
+				for _, x := range m.VaultIds {
+					if x == id {
+						return true
+					}
+				}
+			}
+		}
+		return false
+	}
+	type srec struct {
+		app, prod uint64
+		listed    bool
+		env       string
+	}
+	sbefore := map[uint64]srec{}
+	for _, sv := range w.app.VaultKeeper.GetStableMintVaults(w.ctx) {
+		sbefore[sv.Id] = srec{sv.AppId, sv.ExtendedPairVaultID, inList(sv.ExtendedPairVaultID, sv.Id), w.env(sv.AppId, sv.ExtendedPairVaultID, 0, false)}
+	}
+	type fk struct{ app, asset uint64 }
+	fees := map[fk]sdk.Int{}
+	for _, a := range w.apps {
+		nf, _ := w.app.CollectorKeeper.GetAppNetFeeCollectedData(w.ctx, a)
+		for _, x := range nf {
+			fees[fk{a, x.AssetId}] = x.NetFeesCollected
+		}
+	}
+	cm := authtypes.NewModuleAddress(collectortypes.ModuleName)
+	cbal := map[uint64]sdk.Int{}
+	for _, id := range w.assetIDs {
+		cbal[id] = w.app.BankKeeper.GetBalance(w.ctx, cm, w.denomOf[id]).Amount
+	}
+	if panicked, msg := try(func() { esm.BeginBlocker(w.ctx, abci.RequestBeginBlock{}, w.app.EsmKeeper, w.app.AssetKeeper) }); panicked {
+		w.tr.Count("op:esmblock:panic")
+		w.t.Logf("esm begin-blocker panicked: %s", msg)
+	}
+	n, ns, nc := 0, 0, 0
+	var ids []uint64
+	for id := range before {
+		ids = append(ids, id)
+	}
+	sort.Slice(ids, func(i, j int) bool { return ids[i] < ids[j] })
+	for _, id := range ids {
+		if _, still := w.app.VaultKeeper.GetVault(w.ctx, id); !still {
+			w.tr.Line("vault.msg", "esmVault", u(id), "-", "-", "-", "-", before[id].env, "ok")
+			n++
+		}
+	}
+	var sids []uint64
+	for id := range sbefore {
+		sids = append(sids, id)
+	}
+	sort.Slice(sids, func(i, j int) bool { return sids[i] < sids[j] })
+	for _, id := range sids {
+		b := sbefore[id]
+		if b.listed && !inList(b.prod, id) {
+			w.tr.Line("vault.msg", "esmStable", u(id), "-", "-", "-", "-", b.env, "ok")
+			ns++
+		}
+	}
+	var fks []fk
+	for k := range fees {
+		fks = append(fks, k)
+	}
+	sort.Slice(fks, func(i, j int) bool {
+		if fks[i].app != fks[j].app {
+			return fks[i].app < fks[j].app
+		}
+		return fks[i].asset < fks[j].asset
+	})
+	for _, k := range fks {
+		after := sdk.ZeroInt()
+		if x, f := w.app.CollectorKeeper.GetNetFeeCollectedData(w.ctx, k.app, k.asset); f {
+			after = x.NetFeesCollected
+		}
+		burnt := cbal[k.asset].Sub(w.app.BankKeeper.GetBalance(w.ctx, cm, w.denomOf[k.asset]).Amount)
+		if d := fees[k].Sub(after); d.IsPositive() && burnt.IsPositive() {
+			w.tr.Line("vault.msg", "esmCollector", u(k.app), u(k.asset), d.String(), "-", "-", "esm=1;past=1;brk=0;pin=-;pout=-;iota=0", "ok")
+			nc++
+		}
+	}
+	w.tr.Count(fmt.Sprintf("op:esmblock:vaults=%d:stables=%d:collector=%d", minInt(n, 3), minInt(ns, 2), minInt(nc, 2)))
+	if ns > 0 {
+		w.stateKind("vault.state.esmstable")
+	} else {
+		w.stateKind("vault.state.esm")
+	}
+}
+
+// esmRedeemOp: a holder of the debt asset redeems against the register (MsgCollateralRedemption). Only an ACCEPTED
+// redemption is a model step (the code may also refuse for reasons outside the ledger: prices, share computation, pool
+// funds); a refused one must leave the state as it was (compared by the state line).
+func (w *c01World) esmRedeemOp(user sdk.AccAddress) {
+	r := w.rng
+	type reg struct {
+		app, asset uint64
+		amt        sdk.Int
+	}
+	var regs []reg
+	for _, a := range w.apps {
+		for _, x := range w.app.EsmKeeper.GetAllAssetToAmount(w.ctx, a) {
+			if !x.IsCollateral && x.Amount.IsPositive() {
+				regs = append(regs, reg{a, x.AssetID, x.Amount})
+			}
+		}
+	}
+	g := regs[r.Intn(len(regs))]
+	amt := g.amt
+	switch r.Intn(5) {
+	case 0:
+		amt = g.amt.AddRaw(1)
+	case 1:
+		amt = g.amt.QuoRaw(int64(2 + r.Intn(5)))
+	case 2:
+		amt = w.amount(r.Intn(4))
+	case 3:
+		amt = sdk.NewInt(1)
+	}
+	if !amt.IsPositive() {
+		amt = sdk.NewInt(1)
+	}
+	if r.Chance(80) {
+		if bal := w.app.BankKeeper.GetBalance(w.ctx, user, w.denomOf[g.asset]).Amount; bal.LT(amt) {
+			w.fund(user, g.asset, amt.Sub(bal))
+			w.state()
+		}
+	}
+	ok := w.deliver(&esmtypes.MsgCollateralRedemptionRequest{AppId: g.app, Amount: sdk.NewCoin(w.denomOf[g.asset], amt), From: user.String()})
+	w.tr.Count(fmt.Sprintf("op:esmredeem:%s", c01Outcome(ok)))
+	if ok {
+		w.tr.Line("vault.msg", "esmBurn", fmt.Sprint(w.acct(user.String())), u(g.app), u(g.asset), amt.String(), "-", "esm=1;past=1;brk=0;pin=-;pout=-;iota=0", "ok")
+		w.stateKind("vault.state.esmburn")
+	} else {
+		w.state()
+	}
+}
+
+func minInt(a, b int) int {
+	if a < b {
+		return a
+	}
+	return b
+}
+
 var _ = esmtypes.ModuleName
 
 func minI64(a, b int64) int64 {
@@ -1018,6 +1240,66 @@ func minI64(a, b int64) int64 {
 		return a
 	}
 	return b
+}
+
+// c01Corpus: the recorded findings' witnesses, replayed first in every run on a fixed world.
+//  (1) D29: stable mint, emergency shutdown, cool-off over, the real esm begin-blocker redeems the stable-mint vault and
+//      leaves its record behind;
+//  (2) D13: a vault with a closing fee is seized by liquidationsV2 and its Dutch auction is bought out.
+func c01Corpus(t *testing.T, tr *Trace) {
+	w := c01NewWorld(t, tr, NewRng(424242))
+	w.state()
+	user := w.users[0]
+	un := fmt.Sprint(w.acct(user.String()))
+	var ps, pf *c01Product
+	for i := range w.products {
+		p := &w.products[i]
+		if p.isStable && ps == nil {
+			ps = p
+		}
+		if !p.isStable && p.assetIn != w.products[0].assetIn && pf == nil {
+			pf = p // the WETH product: closing fee 0.01
+		}
+	}
+	// (1)
+	amt := w.decOf[ps.assetIn].MulRaw(5)
+	w.fund(user, ps.assetIn, amt)
+	env := w.env(ps.app, ps.id, 0, false)
+	ok := w.deliver(&vaulttypes.MsgCreateStableMintRequest{From: user.String(), AppId: ps.app, ExtendedPairVaultId: ps.id, Amount: amt})
+	w.tr.Line("vault.msg", "stableCreate", un, u(ps.app), u(ps.id), amt.String(), "-", env, c01Outcome(ok))
+	w.state()
+	var rates []esmtypes.DebtAssetsRates
+	for _, id := range w.assetIDs {
+		rates = append(rates, esmtypes.DebtAssetsRates{AssetID: id, Rates: 1000000})
+	}
+	// (2) first (the shutdown of (1) freezes the app), on the product with a closing fee
+	if pf != nil {
+		out := sdk.NewInt(50_000_000)
+		in := w.crBoundaryIn(pf, out).MulRaw(2).AddRaw(10)
+		w.fund(user, pf.assetIn, in)
+		env = w.env(pf.app, pf.id, 0, false)
+		ok = w.deliver(&vaulttypes.MsgCreateRequest{From: user.String(), AppId: pf.app, ExtendedPairVaultId: pf.id, AmountIn: in, AmountOut: out})
+		w.tr.Line("vault.msg", "create", un, u(pf.app), u(pf.id), in.String(), out.String(), env, c01Outcome(ok))
+		w.state()
+		if vs := w.vaultsOf(user.String()); ok && len(vs) > 0 {
+			twa, _ := w.app.MarketKeeper.GetTwa(w.ctx, pf.assetIn)
+			w.setPrice(pf.assetIn, twa.Twa*45/100, true)
+			w.liquidate(w.users[1], vs[0], false, twa.Twa)
+			for i := 0; i < 30 && len(w.openAuctions()) > 0; i++ {
+				w.bidOp(w.users[1])
+			}
+		}
+	}
+	for _, id := range w.assetIDs {
+		w.app.EsmKeeper.SetSnapshotOfPrices(w.ctx, ps.app, id, 1000000)
+	}
+	w.app.EsmKeeper.SetESMTriggerParams(w.ctx, esmtypes.ESMTriggerParams{AppId: ps.app, TargetValue: sdk.NewCoin("uharbor", sdk.NewInt(1)), CoolOffPeriod: 3600, AssetsRates: rates})
+	w.app.EsmKeeper.SetESMStatus(w.ctx, esmtypes.ESMStatus{AppId: ps.app, Status: true, StartTime: w.now, EndTime: w.now.Add(time.Hour), SnapshotStatus: true})
+	w.now = w.now.Add(2 * time.Hour)
+	w.height++
+	w.ctx = w.ctx.WithBlockHeight(w.height).WithBlockTime(w.now)
+	w.esmBlockOp()
+	w.esmRedeemOp(user)
 }
 
 // TestC01 drives the real vault message server (through the message router) with generated multi-user histories and
@@ -1029,6 +1311,7 @@ func TestC01(t *testing.T) {
 	rng := NewRng(seed())
 	seqs := scale(30, 400)
 	ops := scale(120, 300)
+	c01Corpus(t, tr)
 	for s := 0; s < seqs; s++ {
 		w := c01NewWorld(t, tr, rng)
 		w.state()
